@@ -56,12 +56,14 @@ End I.
 
 Lemma reach_inv hash m : reach hash m -> Inv0 hash m.
 Proof.
-  induction 1 as [hash hint|hash m k v m' _ IH H|hash m k d m' _ IH H|hash hs m s m' _ IH _ IHs H].
+  induction 1 as [hash hint|hash m k v m' _ IH H|hash m k d m' _ IH H|hash hs m s m' _ IH _ IHs H|hash m _ IH].
   - apply inv0_new.
   - right. by destruct (set_spec hash m k v m' IH H).
   - right. by destruct (upd_spec' hash m k d m' IH H).
   - unfold merge in H. destruct (count s =? 0); [by injection H as <-|].
     by destruct (merge_list_spec hash _ m m' IH H).
+  - unfold clear. destruct (Nat.eqb_spec (count m) 0); [done|]. right.
+    destruct IH as [->|HI]; [done|]. apply inv_fresh, (inv_pow _ _ HI).
 Qed.
 
 (* the caller's key buffers: a later write to a buffer that was passed as key changes nothing *)
